@@ -377,3 +377,126 @@ def run_main(peltool, world, ns, fj=None, in_bmc=False, diag_modules=()):
     except SystemExit as e:
         status = e.code
     return status
+
+
+# =====================================================================================
+# E3: importlib stub, fixture plugins, association-list caches
+# =====================================================================================
+class SymDict:
+    """dict replacement for the repo's import caches: an association list searched with ==, so that a
+    symbolic module name is compared (one solver-resolved fork per stored key) instead of hashed
+    (hashing realises the whole string)."""
+
+    def __init__(self, items=()):
+        self._items = list(items)
+
+    def _find(self, k):
+        for i, (kk, _) in enumerate(self._items):
+            if kk == k:
+                return i
+        return -1
+
+    def __contains__(self, k):
+        return self._find(k) >= 0
+
+    def __getitem__(self, k):
+        i = self._find(k)
+        if i < 0:
+            raise KeyError(k)
+        return self._items[i][1]
+
+    def __setitem__(self, k, v):
+        i = self._find(k)
+        if i < 0:
+            self._items.append((k, v))
+        else:
+            self._items[i] = (k, v)
+
+    def get(self, k, default=None):
+        i = self._find(k)
+        return default if i < 0 else self._items[i][1]
+
+    def clear(self):
+        self._items = []
+
+    def items(self):
+        return list(self._items)
+
+    def keys(self):
+        return [k for k, _ in self._items]
+
+    def __len__(self):
+        return len(self._items)
+
+    def __bool__(self):
+        return bool(self._items)
+
+
+class PluginCall:
+    def __init__(self, kind, module, args):
+        self.kind, self.module, self.args = kind, module, args
+
+
+class FixtureModule:
+    """what importlib returns for a plugin: behaviour is a small int chosen by the harness
+       0 returns a JSON object   1 returns a JSON list   2 returns None   3 returns ''
+       4 raises Exception('boom')   5 raises an exception without arguments   6 raises ImportError
+       7 raises AttributeError     8 returns JSON null                          9 returns a JSON string"""
+
+    def __init__(self, imp, name):
+        self._imp, self.__name__ = imp, name
+
+    def _act(self, kind, args):
+        self._imp.calls.append(PluginCall(kind, self.__name__, args))
+        b = self._imp.behaviour
+        fj = self._imp.json
+        if b == 0:
+            return fj.dumps({"Plugin": self.__name__, "Kind": kind})
+        if b == 1:
+            return fj.dumps(["plugin", "list"])
+        if b == 2:
+            return None
+        if b == 3:
+            return ""
+        if b == 4:
+            raise Exception("boom")
+        if b == 5:
+            raise KeyError()
+        if b == 6:
+            raise ImportError("No module named helper_of_plugin")
+        if b == 7:
+            raise AttributeError("'NoneType' object has no attribute 'x'")
+        if b == 8:
+            return fj.dumps(None)
+        return fj.dumps("just a string")
+
+    def parseUDToJson(self, subType, version, data):
+        return self._act("UD", (subType, version, data))
+
+    def parseSRCToJson(self, *words):
+        return self._act("SRC", words)
+
+    def getMaintProcDesc(self, name):
+        self._imp.calls.append(PluginCall("CALLOUT", self.__name__, (name,)))
+        b = self._imp.behaviour
+        if b in (4, 5, 7):
+            raise Exception("boom")
+        if b == 6:
+            raise ImportError("x")
+        if b in (2, 3):
+            return ""
+        return self._imp.json.dumps(["fixture procedure text"])
+
+
+class FakeImporter:
+    """importlib.import_module recorder.  present(name) decides whether the module exists."""
+
+    def __init__(self, json, behaviour=0, present=lambda name: True):
+        self.json, self.behaviour, self.present = json, behaviour, present
+        self.requested, self.calls = [], []
+
+    def import_module(self, name, package=None):
+        self.requested.append(name)
+        if not self.present(name):
+            raise ModuleNotFoundError("No module named %r" % (name,))
+        return FixtureModule(self, name)
